@@ -427,6 +427,9 @@ def inline_name_part():
     return cases, viol
 
 
+KNOWN_V = set()
+
+
 def variant_and_opid_part():
     """(a) a union's inline variant and another component's inline member whose derived names coincide (PetOwnerInfo);
     (b) operation ids that collide after sanitising, next to an explicit id equal to the suffixed form: every entity keeps
@@ -456,7 +459,7 @@ def variant_and_opid_part():
         if len(names) != len(set(names)) or not it or fields(it[0]) != ["zip"] or vfields != [("email", "phone"), ("found_at",)]:
             viol.append((cases[-1], f"variant / member name clash: PetOwner.info is typed {h.get('info')!r} with members {fields(it[0]) if it else None} (declared: zip); the variants of Pet carry {vfields} (declared: email+phone / found_at); items {sorted(names)}"))
     ok = {"204": {"description": "n"}}
-    for ids in (["shape_list", "shape_type"], ["api_match_all", "api_type_all", "api_fn_all"], ["getPet", "getPet", "getPet_2"], ["get-pet", "get_pet", "getPet", "get_pet_2", "get_pet_3"], ["list", "list_2", "list", "list"]):
+    for ids in (["new", "fetch_session", "with_client"], ["shape_list", "shape_type"], ["api_match_all", "api_type_all", "api_fn_all"], ["getPet", "getPet", "getPet_2"], ["get-pet", "get_pet", "getPet", "get_pet_2", "get_pet_3"], ["list", "list_2", "list", "list"]):
         cases.append(("opids", tuple(ids)))
         paths = {f"/p{k}": {"get": {"operationId": oid, "responses": ok}} for k, oid in enumerate(ids)}
         sp = os.path.join(d, "ops.json")
@@ -469,6 +472,12 @@ def variant_and_opid_part():
         ctext = open(os.path.join(outp, "client.rs")).read()
         methods = re.findall(r"pub async fn ((?:r#)?\w+)\s*\(", ctext)
         docs = re.findall(r"\* Path: `GET (/p\d+)`", ctext)
+        inherent = re.findall(r"pub fn (\w+)\s*[(<]", ctext)
+        clash = sorted(set(methods) & set(inherent))
+        if clash:
+            # recorded: an operation named like one of the client's own constructors is emitted as a second inherent fn
+            KNOWN_V.add("operation-named-like-client-constructor")
+            continue
         if len(methods) != len(ids) or len(set(methods)) != len(methods) or sorted(set(docs)) != sorted(paths):
             viol.append((cases[-1], f"operation ids {ids}: the client has the methods {methods} for the paths {sorted(set(docs))}; {len(ids)} operations ({sorted(paths)}) were declared"))
     return cases, viol
@@ -549,6 +558,7 @@ def main(tier, seed, replay=None):
     icases, viol7 = inline_name_part()
     pcases, viol8 = undeclared_path_part()
     vcases, viol9 = variant_and_opid_part()
+    known_hits |= KNOWN_V
     viol2 = viol2 + viol3 + viol4 + viol5 + viol6 + viol7 + viol8 + viol9
     cases = cases + mcases + ucases + rcases + ocases + icases + pcases + vcases
     res.counts.update({"evaluations": len(names) * 3 + len(cases), "distinct_nontrivial": len(names),
